@@ -306,7 +306,7 @@ def check(ctx):
                 ctx.violation("compr-escape:" + text, text, "a diagnosed error", v, how)
         elif k != "ok" or not isinstance(v, T.Array) or v.contents != want:
             ctx.violation("compr:" + text, text, str(want), real_ans(k, v), how)
-        leaked = [nm for nm in names if nm in env._variables]
+        leaked = [nm for nm in names if core.env_bound(env, nm)]
         if leaked:
             ctx.violation("compr-leak:" + text, text, "generator variables local to the comprehension", "bound afterwards: %s" % leaked, how)
         cases.append(("arr compr (names %s) (arrays %s) (conds %s) (body %s)" % (
@@ -345,7 +345,7 @@ def check(ctx):
         r = R.execute(text, env=env)
         ctx.count("shadow:" + text + str(sorted(binds.items())), bucket="compr/shadowing-random")
         after = {v_: repr(R.value(v_, env=env)) for v_ in nm}
-        stray = [g_ for g_ in gens if g_ not in nm and g_ in env._variables]
+        stray = [g_ for g_ in gens if g_ not in nm and core.env_bound(env, g_)]
         if after != before or stray or r["escaped"] or r["status"] != 0:
             ctx.violation("compr-shadow:" + "; ".join("%s = %s" % kv for kv in sorted(binds.items())) + "; " + text,
                           "; ".join("%s = %s" % kv for kv in sorted(binds.items())) + "; " + text,
